@@ -33,7 +33,7 @@ ASSUMPTIONS = ["recv_time is stamped by the client and excluded from the compari
                "surface as its documented error first if the following call reports ConnectionLost; after a reset, frames "
                "still queued may or may not be delivered before ConnectionLost",
                "the local definitions are the shipped core definitions (types 62, 32, 26, 63; 9000 has no definition)"]
-REQUIRE = {"calls_with_own_ack_option": 100, "frames_delivered_in_two_pieces": 40, "frames_scripted": 1500, "returned_messages_compared": 400, "documented_errors_checked": 200, "closes_checked": 150}
+REQUIRE = {"kept_messages_rechecked": 400, "calls_with_own_ack_option": 100, "frames_delivered_in_two_pieces": 40, "frames_scripted": 1500, "returned_messages_compared": 400, "documented_errors_checked": 200, "closes_checked": 150}
 CASE_TIMEOUT = 60
 
 KINDS = ["good", "good2", "unsub", "unknown", "unknown_unsub", "bigger", "smaller", "badver", "ver0", "signal", "ack", "big_badver", "zero_badver", "unsub_big_badver"]
@@ -401,6 +401,7 @@ def run_case(case, tier):
         flags = {"sync": bool(case["sync"]), "ack": bool(case["ack"])}
         changes = list(case.get("changes") or [])
         outcomes = _Outcomes()
+        kept = []      # every returned Message is kept: what it holds must not change when later frames are read
         returned = 0
         for call in range(len(frames) + 6):
             while changes and changes[0][0] <= returned:
@@ -454,6 +455,7 @@ def run_case(case, tier):
                    h.remaining_bytes, h.is_dynamic, h.reserved) + ((h.utc_seconds, h.utc_fraction) if tc else ())
             outcomes.append({"kind": "msg", "type": h.msg_type, "send_time": h.send_time, "hdr": list(hdr), "payload": bytes(m.data).hex(),
                              "state": snap})
+            kept.append((m, bytes(m.data), bytes(m.header)))
             returned += 1
             # the filter itself: never a type that is not subscribed right now
             if not snap["all"] and h.msg_type not in snap["subs"] and not (outcomes.ack and h.msg_type == W.MT_ACK):
@@ -502,6 +504,13 @@ def run_case(case, tier):
                 V.append({"mech": f"reconnect_after_loss_failed:{type(e).__name__}", "detail": str(e)[:200]})
             finally:
                 peer2.shutdown()
+        for i, (km, kd, kh) in enumerate(kept):
+            C["kept_messages_rechecked"] = C.get("kept_messages_rechecked", 0) + 1
+            if bytes(km.data) != kd or bytes(km.header) != kh:
+                V.append({"mech": "returned_message_changed_by_later_reads",
+                          "detail": f"message #{i} (type {km.header.msg_type}) returned by read_message was intact then; after the following reads its "
+                                    f"{'payload' if bytes(km.data) != kd else 'header'} differs ({len(kd)} bytes)"})
+                break
         res["sets"]["script_kinds"] = [[k] for k in case["kinds"]]
         res["sets"]["adjacent_pairs"] = [[a, b] for a, b in zip(case["kinds"], case["kinds"][1:])]
         if close and close.get("at"):
